@@ -21,7 +21,7 @@ if REPO not in sys.path:
 
 HERE = os.path.dirname(os.path.abspath(__file__))
 VERIF = os.path.dirname(HERE)
-OUT = os.path.join(VERIF, 'out')
+OUT = os.environ.get('VERIF_OUT_DIR') or os.path.join(VERIF, 'out')
 
 
 def scratch_root():
